@@ -13,7 +13,22 @@ def main():
     except Exception:
         pass
     mod = importlib.import_module(prop.lower())
-    rc = mod.main(sys.argv[2:])
+    try:
+        rc = mod.main(sys.argv[2:])
+    except SystemExit:
+        raise
+    except BaseException as ex:  # an exception that escaped every guard: the implementation (or the harness) failed outside a guarded call
+        import json
+        import traceback
+        verif = os.path.dirname(os.path.dirname(os.path.abspath(__file__)))
+        os.makedirs(os.path.join(verif, "replays"), exist_ok=True)
+        path = os.path.join(verif, "replays", "%s_unguarded_exception.json" % prop)
+        tb = traceback.format_exc()
+        in_repo = [l.strip() for l in tb.splitlines() if 'File "' in l and "/verif/" not in l]
+        json.dump({"property": prop, "kind": "exception_outside_guard", "exception": repr(ex)[:500], "traceback_tail": tb[-3000:],
+                   "innermost_frame_outside_verif": in_repo[-1] if in_repo else None, "argv": sys.argv[1:]}, open(path, "w"), indent=1)
+        print("VIOLATION property=%s replay=%s kind=exception_outside_guard %s" % (prop, path, repr(ex)[:120].replace("\n", " ")))
+        rc = 1
     sys.exit(rc)
 
 main()
